@@ -509,6 +509,22 @@ def path_traces(fn_node, raising_calls=None, limit=3000, alpha=True, pathsens=Fa
             e = subst_env(e)
         return renumber_local(rd.acanon(e, n)) if alpha else rd.canon(e, n)
 
+    flag_stack: List[Dict[str, bool]] = [{}]
+
+    def step_flags(n):
+        """boolean constants assigned to plain names along the path (flags)"""
+        fl = flag_stack[-1]
+        killed = [d.name for d in rd.gen.get(n.id, [])]
+        if not killed:
+            return fl
+        fl = dict(fl)
+        for k in killed:
+            fl.pop(k, None)
+        if n.kind == "stmt" and isinstance(n.ast, ast.Assign) and len(n.ast.targets) == 1 and isinstance(n.ast.targets[0], ast.Name) and isinstance(n.ast.value, ast.Constant) \
+                and isinstance(n.ast.value.value, bool):
+            fl[n.ast.targets[0].id] = n.ast.value.value
+        return fl
+
     def step_env(n):
         """environment after node n (pathsens only)"""
         env = env_stack[-1]
@@ -534,10 +550,12 @@ def path_traces(fn_node, raising_calls=None, limit=3000, alpha=True, pathsens=Fa
     def rec(n, conds, calls, nodes, used):
         if pathsens:
             env_stack.append(env_stack[-1])
+            flag_stack.append(flag_stack[-1])
             try:
                 return rec0(n, conds, calls, nodes, used)
             finally:
                 env_stack.pop()
+                flag_stack.pop()
         return rec0(n, conds, calls, nodes, used)
 
     def rec0(n, conds, calls, nodes, used):
@@ -571,14 +589,21 @@ def path_traces(fn_node, raising_calls=None, limit=3000, alpha=True, pathsens=Fa
         succ = n.succ
         if pathsens:
             env_stack[-1] = step_env(n)
+            flag_stack[-1] = step_flags(n)
         if n.kind == "test":
             t = text(n.ast, n)
+            known = None
+            if pathsens and isinstance(n.ast, ast.Name):
+                # a flag assigned a constant on this path decides the branch (the other one is infeasible)
+                known = flag_stack[-1].get(n.ast.id)
             for m, l in succ:
                 if l in (True, False):
+                    if known is not None and l is not known:
+                        continue
                     e = (n.id, m.id, l)
                     if e in used:
                         continue
-                    rec(m, conds + [(t, l)], calls, nodes2, used | {e})
+                    rec(m, conds + ([] if known is not None else [(t, l)]), calls, nodes2, used | {e})
             return
         explicit = bool(succ) and all(l == "exc" for _, l in succ)
         for m, l in succ:
